@@ -4,7 +4,7 @@
    is written and when the connection is closed; and whenever the peer is choked and has been told
    so, nothing is mapped and nothing is queued. *)
 From Coq Require Import List NArith ZArith Bool Lia Arith.
-From LTV.C05 Require Import ParamsGen Model Proofs ProofsB.
+From LTV.C05 Require Import Model Proofs ProofsB.
 Import ListNotations.
 Local Open Scope N_scope.
 
@@ -13,14 +13,25 @@ Section ProofsC.
   Variable content : N -> N -> N.
   Variable enc : bool.
   Variable ks : N -> N.
+  Variable P : policy.
 
   Notation fill := (fill L enc ks).
+  Notation keepalive := (keepalive enc ks).
   Notation ew := (ew L content enc ks).
-  Notation step := (step L content enc ks).
-  Notation run := (run L content enc ks).
+  Notation step := (step L content enc ks P).
+  Notation run := (run L content enc ks P).
   Notation up_chunk := (up_chunk content enc ks).
 
-  Ltac sel := cbn [set_ws write_buf write_payload write_ebuf choked queue obuf msgs out last_piece cur closed ws send_choked ebuf eb_end kpos upc load_chunk p_index p_off p_len].
+  Ltac sel := cbn [set_ws set_tq write_buf write_payload write_ebuf choked queue obuf msgs out last_piece cur closed ws send_choked ebuf eb_end kpos upc tq load_chunk p_index p_off p_len].
+
+  Ltac fill_cases s :=
+    unfold Model.fill; cbv zeta;
+    destruct (send_choked s && (5 <=? room s)) eqn:Hdc; cbn [andb negb];
+    destruct (choked s) eqn:Hc; cbn [andb];
+    try (destruct (queue s) as [|p q'] eqn:Hq); cbn [andb];
+    try (destruct (13 <=? _) eqn:H13);
+    try (match goal with |- context [servable L ?y] => destruct (servable L y) eqn:Hv end);
+    unfold Model.buffered; sel.
 
   Definition has_piece_msg (s : st) (i : N) : Prop := exists p, In (MPiece p) (msgs s) /\ p_index p = i.
   Definition streaming (s : st) : Prop := ws s = WPiece \/ (ws s = Msg /\ last_piece s = true).
@@ -42,16 +53,14 @@ Section ProofsC.
   Lemma has_piece_mono : forall s s' i, (forall m, In m (msgs s) -> In m (msgs s')) -> has_piece_msg s i -> has_piece_msg s' i.
   Proof. intros s s' i H (p & Hp & E). exists p. auto. Qed.
 
-  (* fill on an idle, open connection, followed by the IDLE->MSG transition if something was buffered *)
-  Lemma fill_inv3 : forall s, ws s = Idle -> closed s = false -> obuf s = [] -> Inv3 s -> Inv3 (post_fill (fill s)).
+  (* fill on an idle, open connection (it moves to MSG if something is buffered) *)
+  Lemma fill_inv3 : forall s, ws s = Idle -> closed s = false -> (obuf s <> [] -> last_piece s = false) ->
+    Inv3 s -> Inv3 (fill s).
   Proof.
-    intros s Hws Hcl Hob (A & B & C & D & E). unfold Model.fill, post_fill.
-    destruct (send_choked s) eqn:Hsc, (choked s) eqn:Hc; sel;
-      try (destruct (queue s) as [|p q'] eqn:Hq; sel);
-      try (destruct (is_valid_piece L p && l_completed L (p_index p)) eqn:Hv; sel);
-      rewrite ?Hob; cbn [app]; rewrite ?(crypt_nil enc ks);
+    intros s Hws Hcl Hk6 (A & B & C & D & E). fill_cases s;
       try match goal with |- context [match ?b with [] => _ | _ :: _ => _ end] => destruct b eqn:Hb end;
-      unfold Inv3, streaming, has_piece_msg in *; sel; rewrite ?Hws in *;
+      try (rewrite (crypt_nil enc ks), app_nil_r in Hb; rewrite Hk6 in * by (rewrite Hb; discriminate));
+      unfold Inv3, streaming, has_piece_msg in *; sel; rewrite ?Hws, ?Hc, ?andb_true_r, ?andb_false_r in *;
       repeat split; intros;
       repeat match goal with
       | H : _ \/ _ |- _ => destruct H
@@ -60,7 +69,8 @@ Section ProofsC.
       try discriminate; try congruence; try tauto;
       try (match goal with H : upc s = Some ?i |- _ => destruct (C _ H) as (p0 & Hp0 & E0); exists p0; cbn [In]; tauto end);
       try (eexists; split; [cbn [In]; left; reflexivity | reflexivity]);
-      try (apply E; assumption).
+      try (apply E; first [assumption | reflexivity]);
+      try (apply andb_true_iff in Hdc; destruct Hdc as [Hs5 _]; rewrite Hs5 in *; discriminate).
   Qed.
   Notation Inv := (Inv content enc ks).
 
@@ -69,7 +79,8 @@ Section ProofsC.
     last_piece (fst (up_chunk s k)) = last_piece s.
   Proof.
     intros s k. unfold Model.up_chunk, Model.enc_refill, write_ebuf, write_payload.
-    destruct enc; [destruct (p_len (cur s) <=? len (ebuf s))|];
+    destruct (node_quota (tq s) =? 0); [cbn; auto|].
+    destruct enc; [destruct (_ <=? len (ebuf s))|];
       match goal with |- context [if ?c then _ else _] => destruct c end; cbn; auto.
   Qed.
 
@@ -87,14 +98,12 @@ Section ProofsC.
     induction f as [|f IH]; intros k s Hcl HI H3; cbn [Model.ew]; [exact H3|].
     destruct (ws s) eqn:Hws.
     - (* IDLE *)
-      assert (Hob : obuf s = []) by (apply (proj1 HI); rewrite Hws; discriminate).
+      assert (Hk6 : obuf s <> [] -> last_piece s = false).
+      { destruct HI as (_ & _ & _ & _ & K6 & _). exact (K6 Hws). }
       pose proof (fill_inv L content enc ks s Hws HI) as HF.
-      pose proof (fill_inv3 s Hws Hcl Hob H3) as HF3.
-      destruct (closed (fill s)) eqn:Hcf.
-      + rewrite post_fill_e in HF3 by (apply fill_closed_obuf; assumption). exact HF3.
-      + destruct (obuf (fill s)) eqn:Hb.
-        * rewrite post_fill_e in HF3 by exact Hb. exact HF3.
-        * rewrite post_fill_ne in HF, HF3 by (rewrite Hb; discriminate). apply IH; assumption.
+      pose proof (fill_inv3 s Hws Hcl Hk6 H3) as HF3.
+      destruct (closed (fill s)) eqn:Hcf; [exact HF3|].
+      destruct (ws (fill s)); try exact HF3. apply IH; assumption.
     - (* MSG *)
       destruct (N.min k (N.of_nat (length (obuf s))) =? 0) eqn:Hn; [exact H3|].
       set (n := N.min k (N.of_nat (length (obuf s)))) in *.
@@ -140,10 +149,10 @@ Section ProofsC.
 
   Lemma step_inv3 : forall s o, Inv s -> Inv3 s -> Inv3 (step s o).
   Proof.
-    intros s o HI H3. destruct o as [p|p|c|k]; cbn [Model.step].
+    intros s o HI H3. destruct o as [p|p|c|k|t|]; cbn [Model.step].
     - unfold recv_request. destruct (closed s); [exact H3|].
       destruct (choked s) eqn:Hc; cbn [orb]; [exact H3|].
-      destruct (_ || _); [exact H3|]. destruct (existsb _ _); [exact H3|].
+      destruct (_ || _); [exact H3|]. destruct (eager_drop L P p); [exact H3|]. destruct (existsb _ _); [exact H3|].
       destruct H3 as (A & B & C & D & E). revert A B C D E. unfold Inv3, streaming, has_piece_msg; sel. intros A B C D E.
       rewrite Hc in *. repeat split; intros; try discriminate; try tauto; try (apply C; assumption).
     - unfold recv_cancel. destruct (closed s); [exact H3|].
@@ -154,6 +163,15 @@ Section ProofsC.
       destruct H3 as (A & B & C & D & E). revert A B C D E. unfold Inv3, streaming, has_piece_msg; sel. intros A B C D E.
       repeat split; intros; try discriminate; try tauto; try (apply C; assumption).
     - destruct (closed s) eqn:Hc; [exact H3|]. apply ew_inv3; assumption.
+    - destruct (closed s); exact H3.
+    - unfold Model.keepalive. destruct (closed s) eqn:Hc; [exact H3|]. destruct (ws s) eqn:Hws; try exact H3.
+      destruct (4 <=? room s); [|exact H3].
+      destruct H3 as (A & B & C & D & E). revert A B C D E. unfold Inv3, streaming, has_piece_msg, Model.put; sel.
+      rewrite Hws. intros A B C D E.
+      repeat split; intros;
+        repeat match goal with H : _ \/ _ |- _ => destruct H | H : _ /\ _ |- _ => destruct H end;
+        try discriminate; try tauto; try (apply E; assumption).
+      destruct (C _ H) as (p0 & Hp0 & E0). exists p0. cbn [In]. tauto.
   Qed.
 
   Lemma run_inv3 : forall ops, Inv (run ops) /\ Inv3 (run ops).
@@ -174,12 +192,12 @@ Section ProofsC.
   Proof. intros ops. apply (proj2 (run_inv3 ops)). Qed.
 
   (* what is mapped for upload belongs to a verified piece of the torrent for which a PIECE was prepared *)
-  Theorem chunk_only_verified : forall ops i, upc (run ops) = Some i ->
+  Theorem chunk_only_verified : forall ops i, params_ok P = true -> upc (run ops) = Some i ->
     l_completed L i = true /\ i < n_pieces L /\ exists p, In (MPiece p) (msgs (run ops)) /\ p_index p = i.
   Proof.
-    intros ops i H. destruct (proj2 (run_inv3 ops)) as (_ & _ & C & _). destruct (C i H) as (p & Hp & E).
-    pose proof (never_unverified L content enc ks ops p Hp) as V.
-    pose proof (never_out_of_range L content enc ks ops p Hp) as (R & _). subst i.
+    intros ops i HP H. destruct (proj2 (run_inv3 ops)) as (_ & _ & C & _). destruct (C i H) as (p & Hp & E).
+    pose proof (never_unverified L content enc ks P ops p Hp) as V.
+    pose proof (never_out_of_range L content enc ks P ops p HP Hp) as (R & _). subst i.
     repeat split; try assumption. exists p. auto.
   Qed.
 
